@@ -40,6 +40,8 @@ UNITS = [
       loops="contracts/string_find.loops.json"),
     U("findLast_char", "String::findLast($constthis|char)", "c_String_findLast_char", ["findLast_char.hit", "findLast_char.miss"],
       loops="contracts/string_findlast.loops.json"),
+    U("compare_str", "String::compare($constthis|%s)" % CREF, "c_String_compare_str", ["compare_str.attached"],
+      loops="contracts/string_compare.loops.json"),
     U("affix", None, None, ["affix.prefix", "affix.suffix"], funcs=["String::startsWith", "String::endsWith"]),
     # static C-string scanners (used by Process::Arguments): loop contracts, any string length
     U("length_cstr", "String::length(ptr_const_char)", "c_String_length", ["length.return"], entry="h_length",
